@@ -16,6 +16,10 @@ PARTIALS = {
     "base": "A{% block bl %}base{{ x }}{% endblock %}B{% block other %}o{% endblock %}",
     "mid": "{% extends 'base' %}{% block bl %}mid{{ block.super }}{% endblock %}",
     "brk": "{{ v }}{% if v == 2 %}{% break %}{% endif %}{% if v == 1 %}{% continue %}{% endif %}.",
+    # partials that reach other partials: an include and an extends inside an isolated render
+    "n1": "{% include 'p' %}[{{ w }}{{ loc }}]{% assign inner = v %}",
+    "n2": "{% extends 'cbase' %}{% block bl %}{{ loc }}{{ v }}{{ block.super }}{% endblock %}",
+    "cbase": "A{% block bl %}cbase{{ x }}{% endblock %}B{{ title }}",
 }
 
 # one enclosing construct; exactly one %s each
@@ -92,8 +96,9 @@ LEAF = [
     "{% for e in xs %}{% render 'brk', v: e %}|{% include 'brk', v: e %}{% endfor %}{% render 'brk', v: 2 %}",
     "{% doc -%} usage: {% if %} {% form %} {% enddoc %}{%- doc %}{% else %}{% enddoc -%}{{ x }}{% comment -%}{% endif %}{%- endcomment %}",
     "{% comment disabled: for now %}{% if x %}{% nosuchtag a %}{% endfor %}{% endcomment %}{{ x }}{% comment a %}{% when 1 %}{% endcomment %}",
+    "{% assign loc = x %}{% capture w %}W{% endcapture %}{% render 'n1', v: y %}{% include 'n1' %}{% render 'n2', v: s %}{{ inner }}",
 ]
-assert len(WRAP) == 16 and len(LEAF) == 43 and len(WRAP2) == 5   # the bounds in mk_condition's contract
+assert len(WRAP) == 16 and len(LEAF) == 44 and len(WRAP2) == 5   # the bounds in mk_condition's contract
 
 # data sets: nothing defined / ordinary / odd types
 DATA = [
@@ -165,7 +170,7 @@ def mk_condition(name, check, skip=None):
 
     def f(w1: int, leaf: int) -> bool:
         """
-        pre: 0 <= w1 <= 15 and 0 <= leaf <= 42
+        pre: 0 <= w1 <= 15 and 0 <= leaf <= 43
         post: _
         """
         if excluded(name, locals()):
@@ -187,7 +192,7 @@ def outcome(thunk):
         return ("other", type(e).__name__)
 
 
-BOUNDS = "corpus of %d templates = 5 outer constructs x 16 constructs x 43 leaves (harness/corpus.py), 4 fixed data sets" % SIZE
+BOUNDS = "corpus of %d templates = 5 outer constructs x 16 constructs x 44 leaves (harness/corpus.py), 4 fixed data sets" % SIZE
 
 __all__ = ["PARTIALS", "WRAP", "WRAP2", "LEAF", "DATA", "data", "source", "make_env", "template", "Mode",
            "NW2", "NW1", "NLEAF", "NDATA", "SIZE"]
